@@ -866,6 +866,10 @@ class CodeGen:
 
     # -- @snark calls (C17) -----------------------------------------------------------------
     def struct_src(self, v, leaf):
+        if isinstance(v, dict) and "argvar" in v:
+            return v["argvar"]
+        if isinstance(v, dict) and v.get("struct") == "alias_list":
+            return "[%s] * %d" % (self.struct_src(v["item"], leaf), v["n"])
         if isinstance(v, dict) and v.get("struct") == "list":
             return "[%s]" % ", ".join(self.struct_src(x, leaf) for x in v["items"])
         if isinstance(v, dict) and v.get("struct") == "tuple":
@@ -887,6 +891,9 @@ class CodeGen:
         if "op" in v:
             return "(%s %s %s)" % (self.snark_leaf_ret(v["a"]), v["op"], self.snark_leaf_ret(v["b"]))
         raise ValueError(v)
+
+    def st_snark_args(self, s):
+        self.emit("%s = %s" % (s["name"], self.struct_src(s["value"], self.snark_leaf_arg)))
 
     def st_snark_call(self, s):
         self.rid += 1
